@@ -10,6 +10,7 @@ package cert
 // math/big here, not with cert/p256.
 
 import (
+	"sync/atomic"
 	"crypto/ecdsa"
 	"crypto/ed25519"
 	"crypto/elliptic"
@@ -411,6 +412,14 @@ func (w *ctWorld) cert(a ctCert, name string) *ctRealCert {
 		}
 		_, tbs = ctRaw(g)
 	}
+	noncanon := false
+	if c2, ok := c.(*certificateV2); ok && a.Sig == "good" && ctNonCanonPick(name) {
+		// the issuer signed details that are not the canonical encoding of their content (an element this version does not
+		// know after the known ones): the signature covers the bytes as issued, and these are the bytes presented
+		c2.rawDetails = ctDetailsWithUnknown(c2.rawDetails)
+		tbs = append(append(append([]byte(nil), c2.rawDetails...), byte(c2.curve)), c2.publicKey...)
+		noncanon = true
+	}
 	sig := signer.sign(tbs)
 	twin := signer.ec != nil && curve == Curve_P256
 	if a.Sig == "twin" {
@@ -427,12 +436,60 @@ func (w *ctWorld) cert(a ctCert, name string) *ctRealCert {
 	r.pem = string(p)
 	if twin {
 		c2, _ := ctRaw(f)
+		if noncanon {
+			c2.(*certificateV2).rawDetails = append([]byte(nil), c.(*certificateV2).rawDetails...)
+		}
 		if err := c2.setSignature(ctForceS(sig, a.Sig != "twin")); err != nil {
 			panic(err)
 		}
 		r.other = ctRecode(c2.(Certificate))
 	}
 	return r
+}
+
+// ctNonCanonPick: every third certificate name (by hash) is issued in the non-canonical form
+var ctNonCanonCount int64
+
+func ctNonCanonPick(name string) bool {
+	h := uint32(2166136261)
+	for i := 0; i < len(name); i++ {
+		h = (h ^ uint32(name[i])) * 16777619
+	}
+	if h%3 != 0 {
+		return false
+	}
+	atomic.AddInt64(&ctNonCanonCount, 1)
+	return true
+}
+
+// ctDetailsWithUnknown appends a context-specific primitive element with an unassigned tag number to the details
+// element (tag, DER length, body) and re-encodes the length.
+func ctDetailsWithUnknown(raw []byte) []byte {
+	if len(raw) < 2 {
+		panic("verif: details too short")
+	}
+	hl, n := 2, int(raw[1])
+	if raw[1]&0x80 != 0 {
+		k := int(raw[1] & 0x7f)
+		hl, n = 2+k, 0
+		for _, b := range raw[2 : 2+k] {
+			n = n<<8 | int(b)
+		}
+	}
+	if hl+n != len(raw) {
+		panic("verif: details length")
+	}
+	body := append(append([]byte(nil), raw[hl:]...), 0x8f, 0x01, 0x01)
+	out := []byte{raw[0]}
+	switch {
+	case len(body) < 128:
+		out = append(out, byte(len(body)))
+	case len(body) < 256:
+		out = append(out, 0x81, byte(len(body)))
+	default:
+		out = append(out, 0x82, byte(len(body)>>8), byte(len(body)))
+	}
+	return append(out, body...)
 }
 
 // fingerprint of a symbolic blocklist entry
